@@ -38,6 +38,41 @@ def run(ctx, chk):
     r3(ctx, chk)
     r4(ctx, chk)
     r5(ctx, chk)
+    local_spelling_rule(ctx, chk, "C02.R6")
+
+
+def local_spelling_rule(ctx, chk, rule):
+    """TIMEZONE='local' (the default) is not a zone name: every reader tests for it BEFORE handing the string to pytz, and every reader
+    spells the test case-insensitively (`'local' in TIMEZONE.lower()`).  The escape analysis excuses UnknownTimeZoneError because the
+    property quantifies over resolvable zone names - which includes 'Local' / 'LOCAL' as long as all readers agree on that spelling.
+    One reader that compares the raw string sends 'LOCAL' to pytz.timezone() and the exception escapes for that parser path only."""
+    n = 0
+    for f in list(ctx.ix.funcs.values()):
+        if not f.module.rel.startswith("dateparser/") or f.module.rel.startswith("dateparser/data/"):
+            continue
+        g = None
+        for c in iter_own_nodes(f.node):
+            if not (isinstance(c, ast.Compare) and isinstance(c.left, ast.Constant) and isinstance(c.left.value, str)
+                    and c.left.value.lower() == "local" and len(c.ops) == 1 and isinstance(c.ops[0], (ast.In, ast.NotIn, ast.Eq, ast.NotEq))):
+                continue
+            n += 1
+            e = c.comparators[0]
+
+            def lowered(x):
+                return isinstance(x, ast.Call) and isinstance(x.func, ast.Attribute) and x.func.attr in ("lower", "casefold") and not x.args
+            ok = lowered(e) and c.left.value == "local"
+            if not ok and isinstance(e, ast.Name) and c.left.value == "local":
+                g = g or CFG(f.node)
+                at = g.node_of_expr(f.node, c)
+                rd = g.reaching_defs(e.id).get(at, set())
+                ok = bool(rd) and g.entry.id not in rd and all(
+                    isinstance(g.nodes[d].stmt, ast.Assign) and lowered(g.nodes[d].stmt.value) for d in rd)
+            chk.ob(rule, "%s line %d: the 'local' test is made on the lower-cased setting" % (f.qual, c.lineno), ok,
+                   "`%s` compares the setting as written while the other readers lower-case it: TIMEZONE='LOCAL' / 'Local' is the local zone "
+                   "for them and an unknown pytz zone name (UnknownTimeZoneError escapes) here" % " ".join(ast.unparse(c).split()),
+                   key={"function": f.key, "construct": "local test " + " ".join(ast.unparse(c).split())[:50]},
+                   file=f.file, function=f.qual, line=c.lineno, text=" ".join(ast.unparse(c).split()))
+    chk.floor(rule, n, 7, "tests whether TIMEZONE means the local zone")
 
 
 def r5(ctx, chk):
